@@ -943,7 +943,7 @@ func main() {
 		nGo, nAsm, nZlib, nBig, nRobust, nFunc, nInfl = 250, 700, 200, 30, 40000, 12000, 8000
 		n64k = 24
 		bigLimits = 120
-		nWin, nWinR, nWinSmall = 160, 14, 200
+		nWin, nWinR, nWinSmall = 48, 10, 200
 	}
 
 	x.corpus(rng.Fork())
